@@ -340,6 +340,44 @@ class Gen:
             body.append(('retvoid',))
         return (void, body)
 
+    def in_tail(self, depth, cx, budget):
+        """Statements ending a do-expression block: `in e`, or do ... <tail> end, or if c then ... <tail> else ... <tail> end;
+        the blocks in between may register defers / <close> variables."""
+        r = self.rng
+        k = r.random()
+        if budget <= 0 or k < 0.45:
+            return [('in', self.fresh())]
+        pre = lambda: self.block(depth + 1, cx, 0, 2)
+        if k < 0.7:
+            return [('do', [s for s in pre() if s[0] != 'in'] + self.in_tail(depth + 1, cx, budget - 1))]
+        return [('if', self.fresh(), [s for s in pre() if s[0] != 'in'] + self.in_tail(depth + 1, cx, budget - 1),
+                 [s for s in pre() if s[0] != 'in'] + self.in_tail(depth + 1, cx, budget - 1))]
+
+    def doexpr_targeted(self):
+        """do-expressions whose top block registers defers / <close> and ends in do / if-else chains with `in`
+        at the tails, plus `in` in non-tail positions."""
+        r = self.rng
+        self.n = 0
+        void = r.random() < 0.5
+        cx = dict(loop=False, doexpr=True, void=void, fn=True, defer=False, sw=False)
+
+        def md():
+            if r.random() < 0.6:
+                return [('defer', self.fresh(), [('emit', self.fresh())] if r.random() < 0.6 else [])]
+            if r.random() < 0.5:
+                return [('close', [(self.fresh(), r.random() < 0.3), (self.fresh(), False)])]
+            return []
+        top = md() + [('emit', self.fresh())]
+        if r.random() < 0.4:
+            top.append(('if', self.fresh(), md() + [('in', self.fresh())], []))     # early, non-tail `in`
+        top += md() + self.in_tail(1, cx, 3)
+        body = md() + [('doexpr', top), ('emit', self.fresh())]
+        if r.random() < 0.4:
+            body = md() + [('while', self.fresh(), body)]
+        if not void:
+            body.append(('return', self.fresh()))
+        return (void, body)
+
     def targeted(self):
         """[defer] loop { [defer] switch { case: [defer] .. break|continue|return .. } [defer] } : the exits
         inside the switch must run the defers of the case block, of the loop body (outside the switch)
@@ -464,7 +502,9 @@ class Gen:
         if w < 0.96:
             b = self.block(depth + 1, dict(cx, doexpr=True), 0, 3)
             b = [s for s in b if s[0] != 'in'] if (r.random() < 0.5 or cx['defer']) else b
-            b.append(('in', self.fresh()))
+            # the do-expression block must end with `in` on every path (ASTNode:ends_with('In')): directly, or
+            # at the tail of trailing do / if-else chains (only there the `goto` may NOT be omitted)
+            b += self.in_tail(depth + 1, dict(cx, doexpr=True), 0 if cx['defer'] else 2)
             return ('doexpr', b)
         void = r.random() < 0.4
         b = self.block(depth + 1, dict(loop=False, doexpr=False, void=void, fn=True, defer=False), 1, 4)
